@@ -51,6 +51,14 @@ pub fn exec(in_path: &str, out_path: &str, cfg: &OligoCfg, s: &Sched) -> ExecOut
     })));
     let guard = sched::install(s, cfg.threads, "oligo.mmap.taken", "oligo.mmap.exit");
     let result = guarded(|| {
+        // another computer of the same k with other settings lives next to the one under test (shared,
+        // cached or registered per-k data must not carry settings from one object to another)
+        let mut other = OligoComputer::new(in_path.to_string(), format!("{}.cohabitant", out_path), cfg.k);
+        other.set_norm(!cfg.norm);
+        other.set_delim("|".to_string());
+        other.set_header(!cfg.header);
+        other.set_threads(1);
+        let _keep_alive = &other;
         let mut oc = OligoComputer::new(in_path.to_string(), out_path.to_string(), cfg.k);
         oc.set_threads(cfg.threads);
         oc.set_norm(cfg.norm);
